@@ -61,17 +61,17 @@ CADICAL = ['--sat-solver', 'cadical']   # float division vs integer ceil-divisio
 DYN_LOOPS = {r'dynamic_slice': 3}
 SHAPE = 'the sliced view has exactly the shape slice.indices gives (per kept axis)'
 INDEX = 'element k along a kept axis is source element start\' + k*step'
-UNITS = [Unit('shape_slice.%s' % v, 'c05', 'verif_shape_slice_%s' % v, mode='bp', extra=CADICAL, waive=WAIVE, timeout=600, clause=SHAPE) for v in V] + \
+UNITS = [Unit('shape_slice.%s' % v, 'c05', 'verif_shape_slice_%s' % v, mode='bp', extra=CADICAL, waive=WAIVE, timeout=900, clause=SHAPE) for v in V] + \
         [Unit('slice.%s' % v, 'c05', 'verif_slice_%s' % v, mode='uf' if v[2] == 'i' else 'bp', waive=WAIVE, clause=INDEX) for v in V] + [
-    Unit('shape_slice.2d_int_ii', 'c05', 'verif_shape_slice_2d_int_ii', mode='bp', unwind=10, extra=CADICAL, waive=WAIVE,
+    Unit('shape_slice.2d_int_ii', 'c05', 'verif_shape_slice_2d_int_ii', mode='bp', unwind=10, extra=CADICAL, waive=WAIVE, timeout=900,
          clause=SHAPE + '; integers drop their axis'),
     Unit('slice.2d_int_ii', 'c05', 'verif_slice_2d_int_ii', mode='bp', unwind=10, waive=WAIVE, clause=INDEX + '; integer index counted from the end'),
-    Unit('shape_slice.ell', 'c05', 'verif_shape_slice_ell', mode='bp', unwind=10, extra=CADICAL, waive=WAIVE,
+    Unit('shape_slice.ell', 'c05', 'verif_shape_slice_ell', mode='bp', unwind=10, extra=CADICAL, waive=WAIVE, timeout=900,
          clause=SHAPE + '; integers drop their axis; one ellipsis expands to the remaining axes'),
     Unit('slice.ell', 'c05', 'verif_slice_ell', mode='uf', unwind=10, waive=WAIVE, clause=INDEX + '; ellipsis axes map identically'),
     # run-time slice list (array<int,3> encoding) with ONE entry: every code loop of shape_dynamic_slice / dynamic_slice runs over
     # len(slices) == 1 (a compile-time constant of nmtools_array<array<int,3>,1>) or is dead (Ellipsis branch of a non-either element type)
-    Unit('shape_dynamic_slice.1', 'c05', 'verif_shape_dynamic_slice_1', mode='bp', extra=CADICAL, waive=WAIVE, timeout=600, unwind_loops=DYN_LOOPS,
+    Unit('shape_dynamic_slice.1', 'c05', 'verif_shape_dynamic_slice_1', mode='bp', extra=CADICAL, waive=WAIVE, timeout=900, unwind_loops=DYN_LOOPS,
          clause=SHAPE + '; run-time (array<int,3>) and compile-time (tuple) encodings agree (same spec)'),
     Unit('dynamic_slice.1', 'c05', 'verif_dynamic_slice_1', mode='uf', waive=WAIVE, unwind_loops=DYN_LOOPS,
          clause=INDEX + '; run-time (array<int,3>) and compile-time (tuple) encodings agree (same spec)'),
